@@ -129,7 +129,7 @@ Proof. intros H c Hc. rewrite Forall_forall in H. apply H. apply in_bytes256. ex
 Ltac xrw := rewrite ?exec_seq, ?exec_expr, ?exec_if, ?exec_return, ?exec_return_none, ?exec_skip, ?exec_break, ?exec_continue.
 Ltac xcbn := cbn [eval eval_opt bind get_local set_local locals memm nth_error set_nth as_int truth
                   arith arith1 ity_signed ity_bits andb negb orb Z.leb Z.ltb Z.compare Pos.compare Pos.compare_cont].
-Ltac xstep := repeat (progress (xrw; xcbn)).
+
 
 (* ---- Z bit operations on images of N *)
 Lemma of_N_land a b : Z.land (Z.of_N a) (Z.of_N b) = Z.of_N (N.land a b).
@@ -191,3 +191,5 @@ Lemma callf_S prog fuel d f args m :
       else Err EShape
   end.
 Proof. reflexivity. Qed.
+
+Ltac xstep := repeat (progress (xrw; xcbn; rewrite ?nb2z)).
